@@ -258,6 +258,11 @@ func init() {
 						r.Violation("accepted:"+c14Shape(ents), label+": accepted and returned "+J(got)+" but must be rejected ("+werr.Error()+")", rp)
 						continue
 					}
+					// no field appears twice, at any level
+					if dup := c14DupKey(got); dup != "" {
+						r.Violation("duplicate-field:"+c14Shape(ents), label+": returned "+J(got)+": field "+dup+" appears twice", rp)
+						continue
+					}
 					// (ii) everything returned is a stored value
 					if msg := c14Within(got, doc, "", windowed); msg != "" {
 						r.Violation("not-stored-value:"+c14Shape(ents), label+": returned "+J(got)+": "+msg, rp)
@@ -349,6 +354,7 @@ func init() {
 				for _, doc := range docs {
 					_, _ = coll.InsertOne(w.Ctx, doc)
 				}
+				listBefore := w.DumpAll()
 				for rep := 0; rep < reps; rep++ {
 					cur, err := coll.Find(w.Ctx, bD(), options.Find().SetProjection(proj))
 					var got []bson.D
@@ -369,6 +375,10 @@ func init() {
 						}
 					}
 					if bad {
+						break
+					}
+					if after := w.DumpAll(); after != listBefore {
+						r.Violation("stored-document-altered:list:"+c14Shape(ents), fmt.Sprintf("Find({}) with projection %s over all documents changed the stored documents:\n%s", J(proj), firstDiff(listBefore, after)), map[string]interface{}{"projection": J(proj)})
 						break
 					}
 				}
@@ -450,3 +460,27 @@ func c14Shape(ents []c14Entry) string {
 }
 
 var _ = world.New
+
+// c14DupKey returns the path of a field that occurs twice in one (embedded) document of v, or "".
+func c14DupKey(v interface{}) string {
+	switch x := v.(type) {
+	case bson.D:
+		seen := map[string]bool{}
+		for _, e := range x {
+			if seen[e.Key] {
+				return e.Key
+			}
+			seen[e.Key] = true
+			if d := c14DupKey(e.Value); d != "" {
+				return e.Key + "." + d
+			}
+		}
+	case bson.A:
+		for _, el := range x {
+			if d := c14DupKey(el); d != "" {
+				return d
+			}
+		}
+	}
+	return ""
+}
